@@ -15,7 +15,13 @@ use super::TaskExtra;
 macro_rules! dispatch_event {
     ($fn:ident, $event_name:ident, $(&$item:ident), +) => {
         let handles = $fn.$event_name.clone();
+        #[cfg(feature = "verif")]
+        crate::verif::inflight_inc("dispatch");
         Handle::current().spawn(async move {
+            #[cfg(feature = "verif")]
+            crate::verif::chaos_yield("dispatch").await;
+            #[cfg(feature = "verif")]
+            let _verif_done = VerifDispatchDone;
             let handlers = handles.read().unwrap();
             for handle in handlers.iter() {
                 (handle)($(&$item),+);
@@ -27,13 +33,29 @@ macro_rules! dispatch_event {
 macro_rules! dispatch_key_event {
     ($fn:ident, $event_name:ident, $(&$item:ident), +) => {
         let handles = $fn.$event_name.clone();
+        #[cfg(feature = "verif")]
+        crate::verif::inflight_inc("dispatch");
         Handle::current().spawn(async move {
+            #[cfg(feature = "verif")]
+            crate::verif::chaos_yield("dispatch").await;
+            #[cfg(feature = "verif")]
+            let _verif_done = VerifDispatchDone;
             let handlers = handles.read().unwrap();
             for (_, handle) in handlers.iter() {
                 (handle)($(&$item),+);
             }
         });
     };
+}
+
+/// marks a spawned dispatch as done when it is dropped (also when a handler panics)
+#[cfg(feature = "verif")]
+struct VerifDispatchDone;
+#[cfg(feature = "verif")]
+impl Drop for VerifDispatchDone {
+    fn drop(&mut self) {
+        crate::verif::inflight_dec("dispatch");
+    }
 }
 
 pub type ActWorkflowMessageHandle = Arc<dyn Fn(&Event<Message>) + Send + Sync>;
